@@ -262,12 +262,15 @@ def run_check(mod, args, plan, master, workers, driver, findings):
     zero = [p for p in getattr(mod, "PROBES", []) if not agg.probes.get(p)]
     if zero:
         print("warning: probes stuck at zero:", ", ".join(zero))
+    if n_viol:
+        # a confirmed, replayable violation is reported as such even if other runs of the batch hit harness problems
+        return 1
     if rc == 2:
         return 2
     if agg.n == 0:
         print("HARNESS-ERROR no run completed")
         return 2
-    return 1 if n_viol else 0
+    return 0
 
 
 class Aggregate:
